@@ -73,6 +73,10 @@ class FSock:
         self.inprogress = False      # a connect() of this socket has answered "in progress"
         self.queue = []              # listener: connections waiting to be accepted
         self.served = None           # accepted connection: did onaccept_tcp give it a flow?
+        self.last_rd = b""           # what the last successful recv() returned
+        self.max_rd = 0
+        self.rd_sizes = set()
+        self.fired = None            # the injected failure this socket has answered: (call, errno)
         # a receiver that reads more slowly than the tunnel delivers (plan "slow"): the socket's send buffer has
         # `space` bytes of room; see _slow_send
         sl = plan.get("slow")
@@ -136,7 +140,7 @@ class FSock:
         self.last_conn = st
         was_pending, win = self.inprogress, self.w.platform == "win32"
         e = {"d": 0, "p": errno.EINPROGRESS, "k": errno.EISCONN, "n": self.plan.get("connect_errno", errno.ECONNREFUSED),
-             "x": errno.ENOMEM}[st]
+             "x": self.plan.get("connect_x_errno", errno.ENOMEM)}[st]
         if st == "p":
             self.inprogress = True
             if win:
@@ -175,6 +179,7 @@ class FSock:
         if f is not None:
             self.plan["fault"] = None
             self.w.rec["recv"] = "x"
+            self.fired = ("recv", f)
             raise sock_err(f)
         left = self.plan.get("data", 0) - self.produced
         if left > 0 and (self.w.eager or rng.random() < self.plan.get("p_recv", 0.8)):
@@ -182,6 +187,10 @@ class FSock:
             d = pattern(self.tag, self.produced, k)
             self.produced += k
             self.rd += d
+            self.last_rd = d
+            self.max_rd = max(self.max_rd, k)
+            if k >= 65535:
+                self.rd_sizes.add(k)
             self.w.rec["recv"] = hx(d)
             return d
         if left <= 0 and self.plan.get("close", False) and (self.w.eager or rng.random() < 0.8):
@@ -203,6 +212,7 @@ class FSock:
         if f is not None:
             self.plan["fault"] = None
             self.w.rec["send"] = "p" if f == errno.EPIPE else "x"
+            self.fired = ("send", f)
             raise sock_err(f)
         if self.slow is not None:
             k = self._slow_send(len(b))
@@ -255,7 +265,9 @@ class FSock:
             self.reset_by_shutdown = True
         if self.plan.get("shutdown_fails"):
             self.w.rec["shut"] = "0"
-            raise sock_err(errno.ENOTCONN)
+            e = self.plan.get("shutdown_errno", errno.ENOTCONN)
+            self.fired = self.fired or ("shutdown", e)
+            raise sock_err(e)
         self.w.rec["shut"] = "1"
 
 
@@ -502,6 +514,8 @@ class World:
         self.cur_side = "c"
         self.socks = []
         self.crash = None
+        self.crash_info = {}
+        self.model_crashed = False  # the model ends this run with the same crash (a crash by design)
         self.eager = False      # drain phase: the environment never stalls
         self.blocked = {"c": False, "s": False}   # drain phase: that end's select() had nothing ready: it sleeps
         self.cur_meta = None        # the iteration under way: [side, went to sleep in select(), a listener was ready]
@@ -908,6 +922,9 @@ class World:
         except Exception as e:
             if self.model_cut is None:
                 self.crash = type(e).__name__
+                self.crash_info = {"end": {"c": "client", "s": "server"}[side],
+                                   "exception": "%s: %s" % (type(e).__name__, str(e)[:200]),
+                                   "raised_in": code_frames(e)[-3:]}
                 # a half-written log entry (None) stays where the exception interrupted it
             else:
                 self.post_crash[side] = type(e).__name__
@@ -1036,6 +1053,7 @@ def compare(ctx, world, model_out, label):
         ms = parts[i]
         if ms.startswith("CRASH"):
             if world.crash and world.crash == ms.split()[1]:
+                world.model_crashed = True
                 return True
             ctx.disagree("stream: model crashed, implementation did not", label, "crash=%s" % world.crash, ms)
             return False
@@ -1085,9 +1103,57 @@ NET = [errno.ECONNREFUSED, errno.ETIMEDOUT, errno.EHOSTUNREACH, errno.ENETUNREAC
        errno.ENETDOWN, errno.ECONNABORTED, errno.ECONNRESET, errno.EACCES, errno.EPERM]
 
 
+# what the kernel can answer to recv() / send() on an ESTABLISHED TCP socket (tcp(7), ip(7), recv(2), send(2): pending
+# soft errors from ICMP, retransmission / keep-alive time-outs, an interface going down, memory pressure, a firewall
+# rule on the output path, a descriptor gone bad).  Every one is raised as OSError(errno, ...), so Python picks the
+# subclass the real call would raise (TimeoutError, ConnectionResetError, BrokenPipeError, PermissionError, ... or
+# plain OSError): an except clause that names a subclass sees exactly what it would see in production.
+# Model (Stream.v, letter "x"; theorem C08 c08_callback_never_raises): ANY errno of recv/send ends only that flow.
+EST = sorted(set(NET + [errno.EPIPE, errno.ENOTCONN, errno.ENETRESET, errno.ENOBUFS, errno.ENOMEM, errno.EIO, errno.EINVAL,
+                        errno.EBADF, errno.ENOTSOCK, errno.EPROTO, errno.ENONET, errno.EOPNOTSUPP]))
+SHUT_ERRS = [errno.ENOTCONN, errno.EINVAL, errno.EBADF, errno.ENOTSOCK, errno.ENOBUFS, errno.ECONNRESET]
+# connect(): errnos outside try_connect's handled set (the code re-raises by design, the model says CRASH); only ones
+# that Python raises as plain OSError, the class the model's crash carries
+X_ERRS = [errno.ENOMEM, errno.ENOBUFS, errno.EADDRNOTAVAIL, errno.EAFNOSUPPORT, errno.EADDRINUSE, errno.EIO,
+          errno.EBADF, errno.ENOTSOCK, errno.EPROTOTYPE]
+# --latency-buffer-size is an int without upper bound
+WINDOWS = [65536, 262144, 524288, (1 << 20) - 1, 1 << 20, (1 << 20) + 16, 2 << 20, 16 << 20, 1 << 30]
+
+
+def endpoint_error_cases(rng, quick=True):
+    """an established flow whose application / destination socket answers recv() or send() with each errno of EST at
+    some operation, or fails shutdown(), next to a healthy flow that has data to carry in both directions"""
+    out = []
+    combos = [(call, e, who) for call in ("recv", "send") for e in EST for who in ("app", "dst")
+              if not (call == "recv" and e == errno.EPIPE)]
+    combos += [("shutdown", e, who) for e in SHUT_ERRS for who in ("app", "dst")]
+    if quick:
+        combos = rng.sample(combos, 14)
+    for n, (call, e, who) in enumerate(combos):
+        app = {"tag": 1, "data": rng.choice([50, 300, 5000]), "close": rng.random() < 0.7, "p_recv": 1.0}
+        dst = {"tag": 2, "data": rng.choice([50, 300, 5000]), "close": rng.random() < 0.7, "p_recv": 1.0,
+               "connect": rng.choice([["d"], ["p", "d"]])}
+        bad = app if who == "app" else dst
+        bad["faulty"] = True
+        if call == "shutdown":
+            bad["shutdown_fails"], bad["shutdown_errno"] = True, e
+            (dst if who == "app" else app)["close"] = True      # (the failing socket is shut down when its peer closes)
+        else:
+            bad["fault"] = (call, rng.randint(0, 6), e)
+        good = ({"tag": 3, "data": rng.choice([300, 5000, 40000]), "close": True, "p_recv": 1.0},
+                {"tag": 4, "data": rng.choice([300, 5000, 40000]), "close": True, "p_recv": 1.0, "connect": ["d"]})
+        flows = [(app, dst), good] if rng.random() < 0.5 else [good, (app, dst)]
+        out.append({"profile": "fault", "seed": rng.randrange(1 << 30), "maxc": 65535, "lbs": 32768,
+                    "latency": rng.random() < 0.7, "iters": rng.choice([0, 40]), "flows": flows,
+                    "endpoint_error": [call, errno.errorcode.get(e, str(e)), who]})
+    return out
+
+
 def gen_case(rng, profile, quick=True):
+    import random
     c = {"profile": profile, "seed": rng.randrange(1 << 30), "maxc": 65535, "lbs": 32768, "latency": True,
          "flows": [], "iters": 60}
+    r2 = random.Random(c["seed"] ^ 0x2b5)       # later-added dimensions draw here: the older ones keep their sequence
     nflows = rng.choice([1, 1, 2, 3, 4])
     big = rng.random() < (0.15 if quick else 0.3)
     if profile == "wrap":
@@ -1141,6 +1207,15 @@ def gen_case(rng, profile, quick=True):
         c["latency"] = rng.random() < 0.8
         c["lbs"] = rng.choice([32768, 32768, 8192, 65536])
         big = False
+    if profile == "window":
+        # a large --latency-buffer-size (fat link) with reads of exactly 65535 / 65536 bytes — the most one recv() of
+        # uread returns, one more than the length field of a message can say — from the application or the
+        # destination (C01: payload sizes straddling the frame cut and the latency window)
+        nflows = rng.choice([1, 1, 2])
+        c["lbs"] = rng.choice(WINDOWS)
+        c["latency"] = rng.random() < 0.8
+        c["iters"] = rng.choice([0, 20, 60])
+        big = False
     if profile == "trickle":
         # stream payload in SMALL segments from several flows at once, on a link that stops draining for a while: many
         # small messages are queued behind one another between two flushes (C09: the budget counts ALL queued payload)
@@ -1179,6 +1254,15 @@ def gen_case(rng, profile, quick=True):
                 app, dst = lazy, dict(fast, connect=["d"])            # download to a slow application
             else:
                 app, dst = fast, dict(lazy, connect=rng.choice([["d"], ["p", "d"]]))   # upload to a slow destination
+        if profile == "window" and i == 0:
+            total = rng.choice([65535, 65536, 65537, 100000, 131071, 131072])     # (pattern() is 2^17 bytes long)
+            fast = {"tag": 1, "data": total, "close": True, "p_recv": 1.0,
+                    "chunks": rng.choice([[65536], [65536], [65535], [65535, 65536], [65536, 2048, 65535]])}
+            other = {"tag": 2, "data": rng.choice([0, 50, 70000]), "close": True, "p_recv": 1.0}
+            if rng.random() < 0.5:
+                app, dst = fast, dict(other, connect=rng.choice([["d"], ["p", "d"]]))       # upload
+            else:
+                app, dst = dict(other, tag=1), dict(fast, tag=2, connect=["d"])             # download
         if profile == "trickle":
             seg = rng.choice([50, 100, 300, 700])
             amount = min(30000, c["lbs"] * rng.choice([2, 3]) + rng.choice([0, 77]))
@@ -1239,9 +1323,12 @@ def gen_case(rng, profile, quick=True):
                 app["faulty"] = True
             elif kind == "shutdown":
                 who["shutdown_fails"] = True
+                who["shutdown_errno"] = r2.choice(SHUT_ERRS)
                 who["faulty"] = True
             else:
                 e = rng.choice(NET + [errno.EPIPE]) if kind == "send" else rng.choice(NET)
+                if r2.random() < 0.6:
+                    e = r2.choice([x for x in EST if kind == "send" or x != errno.EPIPE])
                 who["fault"] = (kind, rng.randint(0, 6), e)
                 who["faulty"] = True
         c["flows"].append((app, dst))
@@ -1250,6 +1337,7 @@ def gen_case(rng, profile, quick=True):
         if r < 0.06 and c["flows"]:
             # an errno try_connect has never heard of: by design the process gives up (the model says so too)
             c["flows"][-1][1]["connect"] = rng.choice([["x"], ["p", "x"]])
+            c["flows"][-1][1]["connect_x_errno"] = r2.choice(X_ERRS)
     if profile in ("fault", "close", "bulk", "latency", "wrap") and rng.random() < 0.5:
         # the last connection(s) arrive only when everything before them has finished and both ends are asleep
         # in select(): whatever these flows need (their tear-down too) must happen without any other traffic
@@ -1546,6 +1634,49 @@ def check_oracles(w):
                     out["C01"].append((what + " (connection requests or payload among them)", det))
                 if kinds & {0x4204, 0x4205}:
                     out["C02"].append((what + " (an end-of-stream / stop message among them)", det))
+    # An event loop died (an exception left runonce) and the model — whose only crashes are the ones the code provides
+    # for: an errno try_connect has never heard of, a protocol violation by the peer — does not end this run the same way.
+    # The process is gone: nothing it held is delivered any more, no flow it carried is finished or torn down.
+    by_design = any(d.get("connect", [""])[-1] == "x" for _, d in w.case["flows"]) or getattr(w, "model_crashed", False)
+    if w.crash and not by_design:
+        info = dict(getattr(w, "crash_info", {}) or {"exception": w.crash})
+        fired = [{"socket": s.name, "call": s.fired[0], "errno": errno.errorcode.get(s.fired[1], str(s.fired[1])),
+                  "python_class": type(sock_err(s.fired[1])).__name__} for s in w.socks if getattr(s, "fired", None)]
+        info["latency_buffer_size"] = w.lbs
+        info["injected_endpoint_failures_so_far"] = fired
+        # C01: "if neither endpoint aborts, every byte written before the writer closed is eventually delivered"
+        for f, app, dst in w.flows():
+            if dst is not None and faulty_flow(app, dst):
+                continue
+            if dst is None and app.plan.get("faulty"):
+                continue
+            up = (len(app.rd), len(dst.wr) if dst is not None else 0)
+            down = (len(dst.rd) if dst is not None else 0, len(app.wr))
+            if up[0] > up[1] or down[0] > down[1]:
+                out["C01"].append(("an event loop died (%s) although neither endpoint of this flow had aborted: bytes its writer "
+                                   "had written, and the tunnel end had taken from it, are lost with the process — they are "
+                                   "never delivered" % w.crash,
+                                   dict(info, flow=f, taken_from_the_application=up[0], delivered_to_the_destination=up[1],
+                                        taken_from_the_destination=down[0], delivered_to_the_application=down[1],
+                                        last_read_of_the_application_socket=len(app.last_rd),
+                                        last_read_of_the_destination_socket=len(dst.last_rd) if dst is not None else 0)))
+                break
+        # C02: "once both directions are finished, or either endpoint fails, both tunnel ends shut their sockets, drop the
+        # flow's handler and make its identifier reusable" — the failing endpoint's flow is torn down, nothing else happens
+        if w.prox["c"]:
+            open_flows = [f for f, p in enumerate(w.prox["c"]) if f not in w.removed["c"]]
+            escaped = [s_ for s_ in w.socks if getattr(s_, "fired", None)
+                       and ("injected errno %d" % s_.fired[1]) in info.get("exception", "")]
+            if escaped:
+                info["the_error_that_left_the_loop_was_answered_by"] = escaped[0].name
+                out["C02"].append(("an endpoint of a flow failed (socket error on an established connection) and, instead of "
+                                   "that flow being torn down at both tunnel ends (sockets shut, handler dropped, identifier "
+                                   "released), the error left the event loop: the whole tunnel end died (%s) together with "
+                                   "every flow it carried" % w.crash, dict(info, flows_open_at_that_end=open_flows)))
+            else:
+                out["C02"].append(("an event loop died (%s) while flows were open: they are never finished (end-of-stream "
+                                   "after the data) nor torn down (sockets shut, handler dropped, identifier released) — "
+                                   "the tunnel end is gone" % w.crash, dict(info, flows_open_at_that_end=open_flows)))
     if w.crash and not any(d.get("connect", [""])[-1] == "x" for _, d in w.case["flows"]):
         out["C08"].append(("an event loop died: %s" % w.crash, {"exception": w.crash}))
         if "AssertionError" in str(w.crash) and not getattr(w, "model_stale", False):
@@ -1694,7 +1825,7 @@ def code_frames(exc):
     return out
 
 
-def stream_check(ctx, prop, profiles, n_quick, n_thorough):
+def stream_check(ctx, prop, profiles, n_quick, n_thorough, tail_profiles=()):
     """run generated cases of the given profiles; report oracle violations of `prop`"""
     import random
     n = n_quick if ctx.quick() else n_thorough
@@ -1731,9 +1862,17 @@ def stream_check(ctx, prop, profiles, n_quick, n_thorough):
         del batch[:]
     extra = list(EXTRA_CASES.get(prop, [])) + quiet_tunnel_cases()
     crashed = []
-    for i in range(n + len(extra)):
-        profile = profiles[i % len(profiles)]
-        case = extra.pop(0) if extra else gen_case(rng, profile, ctx.quick())
+    def cases():
+        for i in range(n + len(extra)):
+            yield extra.pop(0) if extra else gen_case(rng, profiles[i % len(profiles)], ctx.quick())
+        # (added later, hence after the others: the cases above keep their random sequence)
+        for c_ in endpoint_error_cases(rng, ctx.quick()):
+            yield c_
+        for p_ in tail_profiles:
+            for _ in range(10 if ctx.quick() else 150):
+                yield gen_case(rng, p_, ctx.quick())
+
+    for i, case in enumerate(cases()):
         profile = case["profile"]
         try:
             w = run_case(ctx, case)
@@ -1768,6 +1907,16 @@ def stream_check(ctx, prop, profiles, n_quick, n_thorough):
             ctx.count("cases_with_tiny_identifier_space")
         if case.get("platform", "linux") != "linux":
             ctx.count("cases_platform_" + case["platform"])
+        if case.get("endpoint_error"):
+            ctx.count("endpoint_error_%s_%s" % (case["endpoint_error"][0], case["endpoint_error"][1]))
+        if case["lbs"] >= (1 << 20):
+            ctx.count("cases_latency_buffer_1MiB_or_more")
+        ctx.count("sockets_with_a_read_of_exactly_65536_bytes", sum(1 for s_ in w.socks if s_.max_rd == 65536))
+        ctx.count("sockets_with_a_read_of_exactly_65535_bytes", sum(1 for s_ in w.socks if 65535 in s_.rd_sizes))
+        for s_ in w.socks:
+            if s_.fired:
+                ctx.count("failure_answered_%s_%s_%s" % (s_.fired[0], errno.errorcode.get(s_.fired[1], s_.fired[1]),
+                                                         type(sock_err(s_.fired[1])).__name__))
         if case.get("tunnel_end"):
             ctx.count("tunnel_end_%s_%s_%s" % (case["tunnel_end"]["kind"], case["tunnel_end"]["side"],
                                                "reached" if w.model_cut is not None else "not_reached"))
